@@ -36,7 +36,7 @@ static inline uint16_t gv_sample(int kind, uint32_t seed, int bits, int k, int p
     case GV_GRAD: {
         int g = ((x + 2 * k) * maxv / (pw + 40) + y * maxv / (2 * ph + 1)) / 2;
         int n = (int)(gv_hash(seed, (uint32_t)k * 3u + (uint32_t)p, (uint32_t)x, (uint32_t)y) & 7u) - 3;
-        v     = g + (n << (bits - 8));
+        v     = g + n * (1 << (bits - 8)); /* same value as the former shift, without shifting a negative number */
         break;
     }
     case GV_EXTREME: {
